@@ -181,6 +181,9 @@ class Sched:
 def explore(make_run, preemption_bound=2, max_runs=4000):
     """enumerate schedules by depth-first search over the choices of `make_run(choices) -> (trace, outcome)`,
     bounding the number of preemptions (switching away from a thread that is still enabled)"""
+    # warm-up: the first traced execution of a code object in a process may deliver fewer events (opcode tracing is
+    # switched on lazily), which would give the root of the search a coarser trace than every later run has
+    make_run([])
     seen = 0
     stack = [[]]
     visited = set()
